@@ -54,6 +54,10 @@ pub struct Mismatch {
 }
 
 pub struct Session {
+    /// set when the engine's node ids stopped coinciding with the spec's (a different, legitimate
+    /// schedule ran bind closures in another order): id-based comparisons are then meaningless
+    pub misaligned: std::cell::Cell<bool>,
+    pub aligned_n: std::cell::Cell<usize>,
     pub state: Option<IncrState>,
     pub t: Rc<RefCell<Tables>>,
     pub ctx: Ctx,
@@ -390,7 +394,7 @@ impl Session {
         };
         let t = Rc::new(RefCell::new(Tables::default()));
         let ctx = Ctx { tables: Rc::downgrade(&t), ws: state.weak(), memos: Rc::new(RefCell::new(vec![])) };
-        Session { state: Some(state), t, ctx, trace: vec![], record: false }
+        Session { misaligned: Default::default(), aligned_n: Default::default(), state: Some(state), t, ctx, trace: vec![], record: false }
     }
 
     fn st(&self) -> &IncrState {
@@ -781,14 +785,43 @@ impl Session {
                 }
             }
         }
+        // do the engine's ids still coincide with the spec's?
+        let before = self.misaligned.get();
+        let mut lim = usize::MAX;
+        if let (Some(sc), Some(st)) = (e["scopes"].as_array(), self.state.as_ref()) {
+            if let Ok(snap) = serde_json::from_str::<J>(&st.verif_snapshot()) {
+                let nodes = snap["nodes"].as_array().cloned().unwrap_or_default();
+                let mut ok = nodes.len() == sc.len();
+                for (i, n) in nodes.iter().enumerate() {
+                    if !ok {
+                        break;
+                    }
+                    let got = n["scope"].as_i64().unwrap_or(-1);
+                    if n["kind"] != "released" && got != -1 && Some(got) != sc[i].as_i64() {
+                        ok = false;
+                    }
+                }
+                if !ok {
+                    self.misaligned.set(true);
+                    // ids that existed before this round are still comparable in this round
+                    lim = self.aligned_n.get();
+                } else {
+                    self.aligned_n.set(nodes.len());
+                }
+            }
+        }
+        if before {
+            return out;
+        }
+        let opt = |n: usize| e["opt"].get(n - 1).and_then(|b| b.as_bool()).unwrap_or(false);
         // invocations
         if let Some(inv) = e["inv"].as_array() {
             let mut got: BTreeMap<usize, Vec<&Vec<J>>> = BTreeMap::new();
-            for (n, args) in t.log.inv.iter() {
+            for (n, args) in t.log.inv.iter().filter(|(n, _)| *n <= lim) {
                 got.entry(*n).or_default().push(args);
             }
             let mut want: BTreeMap<usize, &J> = BTreeMap::new();
-            for w in inv {
+            for w in inv.iter().filter(|w| w["n"].as_u64().unwrap() as usize <= lim) {
                 want.insert(w["n"].as_u64().unwrap() as usize, &w["args"]);
             }
             let in_cone = |n: usize| e["cone"].get(n - 1).and_then(|b| b.as_bool()).unwrap_or(true);
@@ -797,6 +830,7 @@ impl Session {
                     out.push(Mismatch { prop: "C02", step, what: format!("node {n} function ran {} times in one stabilise: {runs:?}", runs.len()) });
                 }
                 match want.get(n) {
+                    None if opt(*n) => {}
                     None => {
                         let stale = e["stale"].get(n - 1).and_then(|b| b.as_bool()).unwrap_or(false);
                         let prop = if stale { "C03" } else if in_cone(*n) { "C06" } else { "C05" };
@@ -804,14 +838,14 @@ impl Session {
                     }
                     Some(w) => {
                         let last = runs[runs.len() - 1];
-                        if &J::Array(last.clone()) != *w {
+                        if &J::Array(last.clone()) != *w && !opt(*n) {
                             out.push(Mismatch { prop: "C02", step, what: format!("node {n} ran with args {last:?}, final inputs are {w}") });
                         }
                     }
                 }
             }
             for (n, w) in want.iter() {
-                if !got.contains_key(n) {
+                if !got.contains_key(n) && !opt(*n) {
                     out.push(Mismatch { prop: "C06", step, what: format!("node {n} was not re-invoked although an input changed (expected args {w})") });
                 }
             }
@@ -865,7 +899,7 @@ impl Session {
         if let (Some(want), Some(st)) = (e["released"].as_array(), self.state.as_ref()) {
             if let Ok(snap) = serde_json::from_str::<J>(&st.verif_snapshot()) {
                 if let Some(nodes) = snap["nodes"].as_array() {
-                    for (i, n) in nodes.iter().enumerate() {
+                    for (i, n) in nodes.iter().enumerate().filter(|(i, _)| *i < lim) {
                         let got = n["kind"] == "released";
                         let w = want.get(i).and_then(|b| b.as_bool()).unwrap_or(got);
                         if got != w {
@@ -888,8 +922,9 @@ impl Session {
             }
         }
         if let Some(want) = e["cut"].as_array() {
-            let mut got: Vec<J> = t.log.cut.iter().map(|(n, o, w)| json!({"n": n, "old": o, "new": w})).collect();
-            let mut want = want.clone();
+            let keep = |n: usize| n <= lim && !opt(n);
+            let mut got: Vec<J> = t.log.cut.iter().filter(|(n, _, _)| keep(*n)).map(|(n, o, w)| json!({"n": n, "old": o, "new": w})).collect();
+            let mut want: Vec<J> = want.iter().filter(|w| keep(w["n"].as_u64().unwrap_or(0) as usize)).cloned().collect();
             let key = |j: &J| j.to_string();
             got.sort_by_key(key);
             got.dedup();
@@ -907,7 +942,11 @@ impl Session {
         }
         if let Some(want) = e["inreads"].as_array() {
             let got: Vec<J> = t.log.reads.iter().map(|(o, r)| json!({"o": o, "r": r})).collect();
-            if &got != want {
+            let key = |j: &J| j.to_string();
+            let (mut g, mut w) = (got.clone(), want.clone());
+            g.sort_by_key(key);
+            w.sort_by_key(key);
+            if g != w {
                 out.push(Mismatch { prop: "C07", step, what: format!("reads inside functions {got:?} expected {want:?}") });
             }
         }
@@ -920,7 +959,7 @@ impl Session {
             }
         }
         if let Some(cells) = e["cells"].as_array() {
-            for (i, c) in cells.iter().enumerate() {
+            for (i, c) in cells.iter().enumerate().filter(|(i, _)| *i < lim) {
                 if let Some(var) = t.vars.get(&(i + 1)) {
                     let got = var.get().to_json();
                     if &got != c {
@@ -946,6 +985,11 @@ pub fn run_behaviour(hist: &[J], max_height: Option<usize>) -> Vec<Mismatch> {
     for (i, a) in hist.iter().enumerate() {
         if a["a"] == "expect" {
             out.extend(s.check_expect(a, i));
+            if s.misaligned.get() {
+                // the rest of the behaviour names nodes by ids this engine allocated differently
+                MISALIGNED.with(|c| c.set(c.get() + 1));
+                break;
+            }
             continue;
         }
         if a["a"] == "expect_panic" {
@@ -1017,6 +1061,8 @@ pub fn run_behaviour(hist: &[J], max_height: Option<usize>) -> Vec<Mismatch> {
 thread_local! {
     pub static ORDER: RefCell<Vec<i64>> = RefCell::new(vec![]);
     pub static HARNESS_ERRORS: RefCell<Vec<String>> = RefCell::new(vec![]);
+    /// behaviours cut short because the engine allocated node ids in another order than the spec
+    pub static MISALIGNED: std::cell::Cell<usize> = std::cell::Cell::new(0);
 }
 
 pub fn install_sink() {
@@ -1052,6 +1098,34 @@ pub fn reshape_snapshot(snap: &str) -> J {
         }
         let kind = n["kind"].as_str().unwrap_or("");
         let g = |k: &str, d: J| if released || n[k].is_null() { d } else { n[k].clone() };
+        m.entry("kind").or_default().push(if released { json!("released") } else { json!(kind) });
+        // the node's definition in the spec's vocabulary (arity only), built from the engine's own edges
+        let k = match kind {
+            "const" | "var" | "lhs" | "main" | "expert" => kind,
+            "map" | "mwo" => "map",
+            "mapref" => "mapref",
+            _ if released => "const",
+            _ => "fold",
+        };
+        let mut ins = g("children", json!([]));
+        if kind == "lhs" {
+            ins = json!([g("lhs", json!(0))]);
+        }
+        if (k == "map" || k == "mapref") && ins.as_array().map_or(true, |a| a.is_empty()) {
+            ins = json!([0]);
+        }
+        m.entry("def").or_default().push(json!({
+            "k": k, "ins": ins, "f": "id",
+            "main": if kind == "lhs" { n["main"].as_i64().unwrap_or(0).max(0) } else { 0 },
+            "lc": if kind == "main" { g("lhs_change", json!(0)) } else { json!(0) },
+        }));
+        m.entry("children").or_default().push(g("children", json!([])));
+        m.entry("created").or_default().push(if kind == "lhs" { g("created", json!([])) } else { json!([]) });
+        m.entry("lc").or_default().push(if kind == "main" { g("lhs_change", json!(0)) } else { json!(0) });
+        m.entry("lhsin").or_default().push(if kind == "lhs" { g("lhs", json!(0)) } else { json!(0) });
+        m.entry("xedges").or_default().push(if kind == "expert" { g("edges", json!([])) } else { json!([]) });
+        m.entry("fstale").or_default().push(if kind == "expert" { g("force_stale", json!(false)) } else { json!(false) });
+        m.entry("scope").or_default().push(g("scope", json!(0)));
         m.entry("valid").or_default().push(g("valid", json!(false)));
         m.entry("h").or_default().push(g("h", json!(-1)));
         m.entry("hrch").or_default().push(g("h_rch", json!(-1)));
@@ -1076,7 +1150,7 @@ pub fn reshape_snapshot(snap: &str) -> J {
     for (k, v) in m {
         out.insert(k.to_string(), J::Array(v));
     }
-    for k in ["valid", "h", "hrch", "hahh", "par", "cip", "pic", "recat", "chgat", "numh", "nobs", "rhs", "force", "setat", "val"] {
+    for k in ["def", "kind", "children", "created", "lc", "lhsin", "xedges", "fstale", "scope", "valid", "h", "hrch", "hahh", "par", "cip", "pic", "recat", "chgat", "numh", "nobs", "rhs", "force", "setat", "val"] {
         out.entry(k.to_string()).or_insert(json!([]));
     }
     out.insert("rel".into(), J::Array(rel));
@@ -1097,7 +1171,15 @@ pub fn reshape_snapshot(snap: &str) -> J {
         "ostate".into(),
         J::Array(s["observers"].as_array().map_or(vec![], |v| v.iter().map(|o| o["state"].clone()).collect())),
     );
-    for (k, src) in [("created", "created"), ("changed", "changed"), ("recomputed", "recomputed"), ("invalidated", "invalidated"), ("becamenec", "became_necessary"), ("becameunnec", "became_unnecessary")] {
+    out.insert(
+        "onode".into(),
+        J::Array(s["observers"].as_array().map_or(vec![], |v| v.iter().map(|o| if o["node"].is_null() { json!(0) } else { o["node"].clone() }).collect())),
+    );
+    out.insert(
+        "ohandlers".into(),
+        J::Array(s["observers"].as_array().map_or(vec![], |v| v.iter().map(|o| json!(o["handlers"].as_i64().unwrap_or(0).max(0))).collect())),
+    );
+    for (k, src) in [("ncreated", "created"), ("changed", "changed"), ("recomputed", "recomputed"), ("invalidated", "invalidated"), ("becamenec", "became_necessary"), ("becameunnec", "became_unnecessary")] {
         out.insert(k.into(), s["stats"][src].clone());
     }
     out.insert("status".into(), s["status"].clone());
